@@ -24,6 +24,8 @@ func spec_rowsTs(t [][]int, n int) string { panic("spec") }
 //@ props C19
 //@ effects_only
 //@ effect after "os.Create" only fmt.Errorf, (*builder.TemplateBuilder).WriteFile
+// ... and a failure of any stage in front of os.Create really ends the generation: nothing reachable from here recovers from a panic
+//@ effect no_recover
 
 //@ func (*TemplateBuilder).WriteFile
 //@ props C19
@@ -41,6 +43,7 @@ func spec_rowsTs(t [][]int, n int) string { panic("spec") }
 //@ effects_only
 //@ effect after "os.Create" only fmt.Errorf, (*os.File).WriteString, (*os.File).Close
 //@ effect last_call (*os.File).WriteString b.CodeLast
+//@ effect no_recover
 
 // ---------------------------------------------------------------------------------------------
 // What the builders emit INTO the generated file (bridge between the generator's data and the
